@@ -10,6 +10,7 @@ RULE = (
     "variable tasks with unpinned starts x admitted schedules; busy intervals read from the model and judged by the "
     "documented meaning. Non-trivial = non-default schedule binding for a resource constraint."
 )
+TECHNIQUE = "Hypothesis-generated resource-constraint parameter grids; admitted schedules (steered / enumerated) judged by a z3-free reference model"
 ASSUMPTIONS = [
     "z3 answers and models trusted",
     "reference meanings in vf/ref.py follow docs/resource_constraints.md and class docstrings; zero-length busy instants inside unavailability windows, busy intervals straddling an activity boundary, and shared starts/ends under distance/non-delay are unspecified",
